@@ -466,6 +466,24 @@ int main(int argc, char** argv)
         for_each_case(lati, r, "pcti", [&](const uint64_t index, const std::vector<uint64_t>&) {
             check_percentiles(r, "pcti", index, list_of(index, IVALS, LI));
         });
+        // every length 1..500 (the quantifier's range) with pairwise distinct values in a scrambled order: for distinct
+        // neighbours every rounding mistake in the position p*(n-1)/100 changes the answer (all 401 percentages each)
+        lattice_t latr;
+        latr.axis("ramp_length", 500, jstr("1..500, values 0.5*k-60 scrambled (doubles) and k-120 scrambled (ints)"));
+        latr.describe(r, "ramp.");
+        for_each_case(latr, r, "ramp", [&](const uint64_t index, const std::vector<uint64_t>&) {
+            const auto          n = static_cast<size_t>(index) + 1;
+            std::vector<double> vals(n);
+            std::vector<int>    ivals(n);
+            for (size_t i = 0; i < n; ++i)
+            {
+                const auto k = (i * 7919U + 13U) % n; // a bijection of 0..n-1: 7919 is prime and larger than n
+                vals[i]      = 0.5 * static_cast<double>(k) - 60.0;
+                ivals[i]     = static_cast<int>(k) - 120;
+            }
+            check_percentiles(r, "ramp", index, vals);
+            check_percentiles(r, "ramp", index, ivals);
+        });
         // a finite list of structured longer lists (not exhaustive, stated as such)
         if (args.one.empty() && args.shard == 0)
         {
